@@ -207,7 +207,7 @@ def c06(c):
 
 # ---------------------------------------------------------------------------------------------- C07
 C07_THEOREMS = [
-    "rk4_dense_order3", "rk23_dense_order3", "dopri5_dense_order4", "dop853_dense_order7",
+    "rk4_dense_order3", "rk23_dense_order3", "dopri5_dense_order4", "dop853_dense_order7", "c07_dop853_dense_nodes", "c07_dop853_dense_nodes_sharp",
     "rk4_dense_not_order4", "rk23_dense_not_order4", "dopri5_dense_not_order5", "dop853_dense_not_order8",
     "rk4_dense_weights", "rk23_dense_weights", "dopri5_dense_weights", "dop853_dense_weights", "dop853_extra_stage_eqs",
     "BTree.forall_of_all",
